@@ -185,38 +185,62 @@ def rule_cl_all(ctx):
         R.inst(fn=path, verdict="ok" if not why else "VIOLATION")
         if why:
             R.viol(key, b.where(Loc(0, 0)), "; ".join(why))
-        # call sites
-        for cb in ctx.facts.bodies.values():
-            for c in ctx.calls(cb):
-                lc = c.local_callee()
-                if lc is None or lc.path != path:
-                    continue
-                p0, p1 = c.arg_path(0), c.arg_path(1)
-                why2 = []
-                # arg1: LEFT of a shared-borrowed S (the source)
-                if p1 is None or not ctx.roles.is_left_place(p1):
-                    why2.append("the second argument is not a table's leftovers")
-                else:
-                    root_ty = T[cb.locals[p1.root]["ty"]]
-                    if not (root_ty.get("k") == "ref" and not root_ty.get("mut")):
-                        why2.append("the source is not borrowed shared")
-                # arg0: MAIN of self (clone_from) or a local that becomes MAIN of the returned S (clone)
-                if p0 is not None and ctx.roles.is_main_place(p0):
-                    if p1 is not None and ctx.roles.s_prefix(p0) == ctx.roles.s_prefix(p1):
-                        why2.append("destination and source are the same table")
-                elif p0 is not None:
-                    becomes_main = False
-                    for loc, st in cb.all_assigns():
-                        rv = st["rv"]
-                        if rv["k"] == "aggregate" and rv.get("adt") == ctx.roles.S:
-                            q = cb.op_path(rv["ops"][ctx.roles.S_main])
-                            if q is not None and q.root == p0.root:
-                                becomes_main = True
-                    if not becomes_main:
-                        why2.append("the table receiving the copies is not the result's main table")
-                R.inst(fn=cb.path, site=c.where(), verdict="ok" if not why2 else "VIOLATION")
-                if why2:
-                    R.viol("%s:call" % cb.path, c.where(), "; ".join(why2))
+        # where the copies come from and go to: (source leftovers, destination main)
+        def check_pair(cb, p0, p1, site, key2):
+            """p1: path of the source's leftovers (or a place inside them), p0: path of the table receiving the copies, both in body cb"""
+            why2 = []
+            sp = ctx.roles.s_prefix(p1) if p1 is not None else None
+            if p1 is None or sp is None or LEFT not in [t for t, _ in ctx.roles.classify(p1)]:
+                why2.append("the elements copied are not a table's leftovers")
+            else:
+                root_ty = T[cb.locals[p1.root]["ty"]]
+                if not (root_ty.get("k") == "ref" and not root_ty.get("mut")):
+                    why2.append("the source is not borrowed shared")
+            # destination: MAIN of another S (clone_from) or a local that becomes MAIN of the returned S (clone)
+            if p0 is not None and ctx.roles.is_main_place(p0):
+                if p1 is not None and ctx.roles.s_prefix(p0) == sp:
+                    why2.append("destination and source are the same table")
+            elif p0 is not None:
+                becomes_main = False
+                for loc, st in cb.all_assigns():
+                    rv = st["rv"]
+                    if rv["k"] == "aggregate" and rv.get("adt") == ctx.roles.S:
+                        q = cb.op_path(rv["ops"][ctx.roles.S_main])
+                        if q is not None and q.root == p0.root:
+                            becomes_main = True
+                if not becomes_main:
+                    why2.append("the table receiving the copies is not the result's main table")
+            else:
+                why2.append("the table receiving the copies is unknown")
+            R.inst(fn=cb.path, site=site, verdict="ok" if not why2 else "VIOLATION")
+            if why2:
+                R.viol(key2, site, "; ".join(why2))
+
+        if not why:
+            srcp = ctx.resolve(b, cl.arg_path(0))[1]
+            dstp = ctx.resolve(b, ins[0].arg_path(0))[1]
+            if ctx.roles.s_prefix(srcp) is not None:
+                # the copier works on the split tables themselves
+                check_pair(b, dstp.strip_refs() if dstp is not None else None, srcp, b.where(Loc(0, 0)), "%s:tables" % path)
+            elif 1 <= srcp.root <= b.arg_count and dstp is not None and 1 <= dstp.root <= b.arg_count:
+                # a helper given (destination table, source leftovers): decided at its call sites
+                si, di = srcp.root - 1, dstp.root - 1
+                ncalls = 0
+                for cb in ctx.facts.bodies.values():
+                    for c in ctx.calls(cb):
+                        lc = c.local_callee()
+                        if lc is None or lc.path != path:
+                            continue
+                        ncalls += 1
+                        pd, ps = c.arg_path(di), c.arg_path(si)
+                        if ps is not None:
+                            for e in srcp.elems:
+                                ps = ps.extend(e)
+                        check_pair(cb, pd, ps, c.where(), "%s:call" % cb.path)
+                if not ncalls:
+                    R.viol("%s:uncalled" % path, b.where(Loc(0, 0)), "the copier is never called")
+            else:
+                R.viol("%s:provenance" % path, b.where(Loc(0, 0)), "cannot tell which tables the copier reads from and writes to (unproven)")
     return R
 
 
@@ -407,6 +431,83 @@ def rule_g_pure(ctx):
     return R
 
 
+def _asserted_truth(ctx, b, c):
+    """the truth value of call c's boolean result on the successor edge that does not lead to a panic (None if unclear)"""
+    if c.dest is None or c.dest["proj"]:
+        return None
+    dl = c.dest["local"]
+
+    def panics(x, depth=0):
+        t = b.term(x)
+        if t["k"] == "goto" and depth < 4:
+            return panics(t["target"], depth + 1)
+        if t["k"] == "call" and t.get("target") is None:
+            cc = ctx.call_at(b, x)
+            return cc is not None and (cc.name or "").startswith("core::panicking")
+        if t["k"] == "call" and depth < 4 and in_macro(t["span"], "panic", "assert", "debug_assert", "unreachable"):
+            return panics(t["target"], depth + 1)       # building the panic message
+        return False
+    for bb in b.reachable():
+        t = b.term(bb)
+        if t["k"] != "switch":
+            continue
+        d = b.source_def(t["discr"])
+        neg = False
+        if d is not None and d[1] == "assign" and d[2]["rv"]["k"] == "unop" and d[2]["rv"]["op"] == "Not":
+            d = b.source_def(d[2]["rv"]["a"])
+            neg = True
+        if d is None or d[1] != "call" or d[0] != c.loc:
+            continue
+        res = set()
+        for s_ in b.succs(bb):
+            vals = [v for v, tb in t["targets"] if tb == s_]
+            truth = (vals != [0]) if vals else True
+            if s_ == t["otherwise"] and not vals:
+                truth = True
+            if neg:
+                truth = not truth
+            if not panics(s_):
+                res.add(truth)
+        if len(res) == 1:
+            return res.pop()
+    return None
+
+
+def _local_s_state(ctx, b, local):
+    """N / S if `local` is a split table built by one struct literal whose LEFT operand is None / Some(..) and never changed afterwards"""
+    from rules_typestate import _opt_value_state
+    ro = ctx.roles
+    d = b.unique_def(local)
+    if d is None or d[1] != "assign" or d[2]["rv"]["k"] != "aggregate" or d[2]["rv"].get("adt") != ro.S:
+        return None
+    st0 = _opt_value_state(b, d[2]["rv"]["ops"][ro.S_left])
+    if st0 not in (N, S):
+        return None
+    T = ctx.facts.types
+
+    def touches(pl):
+        p = b.expand(pl, alias=True)
+        if p.root != local:
+            return False
+        fs = p.fields()
+        return not fs or (fs[0][1] == ro.S and fs[0][2] == ro.S_left)
+    for loc, st in b.all_assigns():
+        if b.is_cleanup(loc.bb):
+            continue
+        if st["place"]["proj"] and touches(st["place"]):
+            return None
+        rv = st["rv"]
+        if rv["k"] in ("ref", "rawptr") and rv.get("mut") and touches(rv["place"]):
+            return None
+    for c in ctx.calls(b):
+        if b.is_cleanup(c.loc.bb):
+            continue
+        for i, a in enumerate(c.args):
+            if a["k"] == "move" and not a["place"]["proj"] and a["place"]["local"] == local:
+                return None
+    return st0
+
+
 def rule_t_dbg(ctx):
     R = RuleResult("T-dbg", "every debug-only assertion about whether a resize is pending is implied by what the (release) code establishes anyway, so the "
                    "debug build never stops where the release build would continue")
@@ -440,6 +541,10 @@ def rule_t_dbg(ctx):
                     s_path = c.arg_path(0)
             if kind is None:
                 continue
+            # polarity: the assertion requires the predicate's value on the edge that does not panic (`debug_assert!(!x.is_split())`)
+            req_truth = _asserted_truth(ctx, b, c)
+            if req_truth is False:
+                kind = N if kind == S else S
             n += 1
             key = "%s:debug_assert:LEFT=%s" % (b.path, kind)
             ok = False
@@ -450,6 +555,13 @@ def rule_t_dbg(ctx):
                 if stt == kind:
                     ok = True
                     how = "typestate at the assertion is %s%s" % (stt, " (entry requirement established by every caller: T-grow)" if b.path in req else "")
+            if not ok and s_path is not None and not (1 <= s_path.root <= b.arg_count):
+                # a split table built locally: its pending-resize field keeps the value it was constructed with as long as neither the
+                # whole value nor that field is written or borrowed mutably
+                st_local = _local_s_state(ctx, b, s_path.root)
+                if st_local == kind:
+                    ok = True
+                    how = "the table is a local value constructed with LEFT=%s and neither it nor that field is written or mutably borrowed afterwards" % kind
             if not ok and kind == S:
                 # correlation: dominated by the OLD edge of a bucket returned by find() on the same table, nothing invalidating in between
                 for e, (bkey, side) in flag_edges(ctx, b).items():
